@@ -246,11 +246,10 @@ func c18Table(c *Ctx) {
 	}
 }
 
-func itemFieldsOf(w *World, r *ssa.Return, item func(ssa.Value) bool) bool {
+func itemFieldsIn(r *ssa.Return, item func(ssa.Value) bool, want [3]string) bool {
 	if len(r.Results) != 4 {
 		return false
 	}
-	want := []string{"PreRouteItem.protocol", "PreRouteItem.host", "PreRouteItem.port"}
 	for i, ref := range want {
 		b, ok := isLoadOf(r.Results[i], ref)
 		if !ok || !item(b) {
@@ -260,12 +259,75 @@ func itemFieldsOf(w *World, r *ssa.Return, item func(ssa.Value) bool) bool {
 	return isNilConst(r.Results[3])
 }
 
+// routeLookupSpec says where a static-route lookup body lives and how it reports its answer: FindRoute itself
+// (table = the receiver's items, key = dest, results protocol/host/port/err), or a caller that consults the table through
+// a helper of its own which the inliner has merged into it (then the caller's own results are read).
+type routeLookupSpec struct {
+	f       *ssa.Function
+	label   string
+	isTable func(ssa.Value) bool // base of the PreConfigRoute.items load
+	isKey   func(ssa.Value) bool
+	want    [3]string // field of the entry expected at result 0, 1, 2
+}
+
 func c18Precedence(c *Ctx) {
-	w := c.w
 	rule := "precedence"
 	f := c.fn(rule, "(*PreConfigRoute).FindRoute")
 	if f == nil {
 		return
+	}
+	c18PrecedenceIn(c, routeLookupSpec{f: f, label: "FindRoute",
+		isTable: func(b ssa.Value) bool { return isParam(f, b, 0) },
+		isKey:   func(v ssa.Value) bool { return isParam(f, v, 1) },
+		want:    [3]string{"PreRouteItem.protocol", "PreRouteItem.host", "PreRouteItem.port"}})
+	if sp := c03InlineLookupSpec(c.w); sp != nil {
+		c18PrecedenceIn(c, *sp)
+	}
+	c.floor(rule, 9)
+}
+
+// c03InlineLookupSpec: the static-route hop function does not call FindRoute but consults p.preConfigRoute.items itself
+// (through a helper merged into it by the inliner): the lookup rules are applied to that body too, with the hop
+// function's result order host/port/transport.
+func c03InlineLookupSpec(w *World) *routeLookupSpec {
+	f := w.Fn("(*Proxy).getNextRequestHopByConfig")
+	if f == nil || len(w.callsIn(f, "(*PreConfigRoute).FindRoute")) != 0 {
+		return nil
+	}
+	isTable := func(b ssa.Value) bool {
+		pb, ok := isLoadOf(b, "Proxy.preConfigRoute")
+		return ok && isParam(f, pb, 0)
+	}
+	found := false
+	eachInstr(f, func(in ssa.Instruction) {
+		if lk, ok := in.(*ssa.Lookup); ok && lk.CommaOk {
+			if b, isL := isLoadOf(lk.X, "PreConfigRoute.items"); isL && isTable(b) {
+				found = true
+			}
+		}
+	})
+	if !found {
+		return nil
+	}
+	isKey := func(v ssa.Value) bool {
+		gh, _ := callOfResult(v)
+		if gh == nil || w.calleeName(gh) != "(*To).GetHost" || !isResultOf(v, gh, 0) {
+			return false
+		}
+		to, _ := callOfResult(callArg(gh, -1))
+		return to != nil && w.calleeName(to) == "(*Message).GetTo" && isResultOf(callArg(gh, -1), to, 0) && isParam(f, callArg(to, -1), 1)
+	}
+	return &routeLookupSpec{f: f, label: "ByConfig/FindRoute", isTable: isTable, isKey: isKey,
+		want: [3]string{"PreRouteItem.host", "PreRouteItem.port", "PreRouteItem.protocol"}}
+}
+
+func c18PrecedenceIn(c *Ctx, sp routeLookupSpec) {
+	w := c.w
+	rule := "precedence"
+	f := sp.f
+	L := sp.label
+	itemFieldsOf := func(w *World, r *ssa.Return, item func(ssa.Value) bool) bool {
+		return itemFieldsIn(r, item, sp.want)
 	}
 	var exact, def *ssa.Lookup
 	var defs []*ssa.Lookup
@@ -274,10 +336,10 @@ func c18Precedence(c *Ctx) {
 		if !ok || !lk.CommaOk {
 			return
 		}
-		if b, isL := isLoadOf(lk.X, "PreConfigRoute.items"); !isL || !isParam(f, b, 0) {
+		if b, isL := isLoadOf(lk.X, "PreConfigRoute.items"); !isL || !sp.isTable(b) {
 			return
 		}
-		if isParam(f, lk.Index, 1) {
+		if sp.isKey(lk.Index) {
 			exact = lk
 		} else if s, isS := constString(lk.Index); isS && s == "default" {
 			def = lk
@@ -285,7 +347,7 @@ func c18Precedence(c *Ctx) {
 		}
 	})
 	if exact == nil || def == nil {
-		c.bad(rule, "FindRoute/lookups", w.pos(f.Pos()), "FindRoute must consult items[dest] (exact) and items[\"default\"] with comma-ok lookups")
+		c.bad(rule, L+"/lookups", w.pos(f.Pos()), "FindRoute must consult items[dest] (exact) and items[\"default\"] with comma-ok lookups")
 		return
 	}
 	okOf := func(lk *ssa.Lookup) func(Atom) bool {
@@ -302,21 +364,26 @@ func c18Precedence(c *Ctx) {
 	}
 	// exact hit
 	hitKeep := w.under(assumeAtom(okOf(exact), true))
-	rets := returnsUnder(f, hitKeep)
+	var rets []*ssa.Return
+	for _, r := range returnsUnder(f, hitKeep) {
+		if canReach(at(exact), hitKeep, isInstr(r), nil) {
+			rets = append(rets, r)
+		}
+	}
 	good := len(rets) == 1 && itemFieldsOf(w, rets[0], valOf(exact))
-	c.check(good, rule, "FindRoute/exact-hit-wins", w.ipos(exact), "a literal hit returns that entry at once", "when items[dest] exists FindRoute does not immediately return that entry's protocol/host/port")
+	c.check(good, rule, L+"/exact-hit-wins", w.ipos(exact), "a literal hit returns that entry at once", "when items[dest] exists FindRoute does not immediately return that entry's protocol/host/port")
 	// wildcard scan
 	var scan *rangeLoop
 	for _, rl := range rangeLoops(f) {
 		scan = rl
 	}
 	if scan == nil {
-		c.bad(rule, "FindRoute/scan", w.pos(f.Pos()), "no wildcard scan loop")
+		c.bad(rule, L+"/scan", w.pos(f.Pos()), "no wildcard scan loop")
 		return
 	}
-	c.check(w.requires(f, scan.If, okOf(exact), false), rule, "FindRoute/scan-after-exact-miss", w.ipos(scan.If), "patterns are tried only after the literal lookup missed", "the wildcard scan is reachable although a literal entry exists (or before the literal lookup)")
+	c.check(w.requires(f, scan.If, okOf(exact), false), rule, L+"/scan-after-exact-miss", w.ipos(scan.If), "patterns are tried only after the literal lookup missed", "the wildcard scan is reachable although a literal entry exists (or before the literal lookup)")
 	for i, d := range defs {
-		c.check(scan.Done.Dominates(d.Block()) && !scan.inLoop(d.Block()), rule, fmt.Sprintf("FindRoute/default-after-scan#%d", i+1), w.ipos(d), "`default` is consulted only after the scan is exhausted", "the default entry is consulted before/without exhausting the wildcard scan")
+		c.check(scan.Done.Dominates(d.Block()) && !scan.inLoop(d.Block()), rule, fmt.Sprintf("%s/default-after-scan#%d", L, i+1), w.ipos(d), "`default` is consulted only after the scan is exhausted", "the default entry is consulted before/without exhausting the wildcard scan")
 	}
 	// scan hit: requires matched == true of a MatchString on (translated item pattern, dest)
 	var match *ssa.Call
@@ -326,7 +393,7 @@ func c18Precedence(c *Ctx) {
 		}
 	}
 	if match == nil {
-		c.bad(rule, "FindRoute/match", w.pos(f.Pos()), "the scan does not test patterns with a regular-expression match")
+		c.bad(rule, L+"/match", w.pos(f.Pos()), "the scan does not test patterns with a regular-expression match")
 	} else {
 		matched := func(a Atom) bool { return a.Kind == "bool" && isResultOf(a.X, match, 0) }
 		n := 0
@@ -336,7 +403,7 @@ func c18Precedence(c *Ctx) {
 			}
 			if r, ok := b.Instrs[len(b.Instrs)-1].(*ssa.Return); ok {
 				n++
-				c.check(w.requires(f, r, matched, true), rule, "FindRoute/scan-hit-needs-match", w.ipos(r), "an entry is returned from the scan only when its pattern matched", "the scan returns an entry although its pattern did not match")
+				c.check(w.requires(f, r, matched, true), rule, L+"/scan-hit-needs-match", w.ipos(r), "an entry is returned from the scan only when its pattern matched", "the scan returns an entry although its pattern did not match")
 				// the returned fields come from the entry being tested
 				// the entry whose pattern was matched
 				var tested ssa.Value
@@ -346,13 +413,13 @@ func c18Precedence(c *Ctx) {
 					}
 				}
 				okItem := tested != nil && itemFieldsOf(w, r, func(v ssa.Value) bool { return strip(v) == tested })
-				c.check(okItem, rule, "FindRoute/scan-hit-result", w.ipos(r), "the entry whose pattern matched is returned", "the scan hit does not return protocol/host/port of the very entry whose pattern was matched")
+				c.check(okItem, rule, L+"/scan-hit-result", w.ipos(r), "the entry whose pattern matched is returned", "the scan hit does not return protocol/host/port of the very entry whose pattern was matched")
 			}
 		}
-		c.check(n >= 1, rule, "FindRoute/scan-returns", w.pos(f.Pos()), "a scan hit returns", "the scan never returns a hit")
+		c.check(n >= 1, rule, L+"/scan-returns", w.pos(f.Pos()), "a scan hit returns", "the scan never returns a hit")
 		// subject of the match is the looked-up host
 		subj := match.Call.Args[len(match.Call.Args)-1]
-		c.check(isParam(f, subj, 1), rule, "FindRoute/match-subject", w.ipos(match), "patterns are matched against the looked-up host", "the pattern is not matched against FindRoute's dest argument")
+		c.check(sp.isKey(subj), rule, L+"/match-subject", w.ipos(match), "patterns are matched against the looked-up host", "the pattern is not matched against FindRoute's dest argument")
 	}
 	// default and error
 	defKeep := w.under(assumeAtom(okOf(exact), false), assumeAtom(okOf(def), true))
@@ -362,7 +429,7 @@ func c18Precedence(c *Ctx) {
 			okDef = itemFieldsOf(w, r, valOf(def))
 		}
 	}
-	c.check(okDef, rule, "FindRoute/default-hit", w.ipos(def), "the default entry is returned when nothing else matched", "with a default entry and no other match FindRoute does not return the default entry's fields")
+	c.check(okDef, rule, L+"/default-hit", w.ipos(def), "the default entry is returned when nothing else matched", "with a default entry and no other match FindRoute does not return the default entry's fields")
 	errKeep := w.under(assumeAtom(okOf(exact), false), assumeAtom(okOf(def), false))
 	okErr := false
 	for _, r := range returnsUnder(f, errKeep) {
@@ -370,25 +437,24 @@ func c18Precedence(c *Ctx) {
 			okErr = len(r.Results) == 4 && w.isFreshError(r.Results[3])
 		}
 	}
-	c.check(okErr, rule, "FindRoute/not-routable-last", w.ipos(def), "no entry at all yields an error", "without any matching entry FindRoute does not end in an error")
+	c.check(okErr, rule, L+"/not-routable-last", w.ipos(def), "no entry at all yields an error", "without any matching entry FindRoute does not end in an error")
 	// every hit comes from one of the three sources, in that order: nothing else (a remembered earlier match, a second
 	// table) answers before the configured order was consulted
 	nHit := 0
 	for _, r := range returnsUnder(f, nil) {
-		if len(r.Results) != 4 || !isNilConst(r.Results[3]) {
+		if len(r.Results) != 4 || !isNilConst(r.Results[3]) || !canReach(at(exact), nil, isInstr(r), nil) {
 			continue
 		}
 		nHit++
 		src := w.requires(f, r, okOf(exact), true) || scan.inExitRegion(r.Block()) || (w.requires(f, r, okOf(exact), false) && w.requires(f, r, okOf(def), true))
-		c.check(src, rule, fmt.Sprintf("FindRoute/hit-sources#%d", nHit), w.ipos(r), "a hit is the literal entry, a scan hit or the default entry", "FindRoute returns a route that is neither the literal entry, nor a hit of the configuration-order scan, nor the default entry (e.g. a remembered earlier match tried first): with overlapping wildcards the same host no longer always gets the first configured match")
+		c.check(src, rule, fmt.Sprintf("%s/hit-sources#%d", L, nHit), w.ipos(r), "a hit is the literal entry, a scan hit or the default entry", "FindRoute returns a route that is neither the literal entry, nor a hit of the configuration-order scan, nor the default entry (e.g. a remembered earlier match tried first): with overlapping wildcards the same host no longer always gets the first configured match")
 	}
 	// every error return requires the default lookup to have missed
 	for _, r := range returnsUnder(f, nil) {
-		if len(r.Results) == 4 && !isNilConst(r.Results[3]) {
-			c.check(w.requires(f, r, okOf(def), false) && w.requires(f, r, okOf(exact), false), rule, "FindRoute/error-only-after-all", w.ipos(r), "the error return comes after exact, scan and default", "an error is returned before all three lookups were tried")
+		if len(r.Results) == 4 && !isNilConst(r.Results[3]) && canReach(at(exact), nil, isInstr(r), nil) {
+			c.check(w.requires(f, r, okOf(def), false) && w.requires(f, r, okOf(exact), false), rule, L+"/error-only-after-all", w.ipos(r), "the error return comes after exact, scan and default", "an error is returned before all three lookups were tried")
 		}
 	}
-	c.floor(rule, 9)
 }
 
 func c18NextHopPort(c *Ctx) {
